@@ -213,6 +213,18 @@ def _cases(draw):
         if named and hosts:
             h = g.pick(hosts)
             h["c"]["appearance"] = g.pick(["custom(${%s})", "w1 ${%s}", "${%s}"]) % g.pick(named)
+    if g.p("_", 0.12):
+        # a reference into the last saved record inside a text, written between quotation marks or apostrophes (text is not XPath:
+        # quotes in it quote nothing) -- possibly the only last-saved reference of the form
+        named = [nm for nm, hits in model.find_named(form).items() if len(hits) == 1 and hits[0][0]["k"] == "q"
+                 and hits[0][0]["c"].get("type", "").split(" ")[0] in ("text", "integer", "decimal", "date")]
+        hosts = [n for n, _ in model.walk(form["nodes"]) if n["k"] == "q" and "label" in n["c"] and "${" not in n["c"]["label"]
+                 and n["c"].get("type", "").split(" ")[0] in ("text", "integer", "note") and "calculation" not in n["c"] and "trigger" not in n["c"]]
+        if named and hosts:
+            h = g.pick(hosts)
+            col = g.pick(["label", "hint"])
+            if not any(k.startswith(col + "::") for k in h["c"]) and not (col == "hint" and "hint" in h["c"] and "${" in h["c"]["hint"]):
+                h["c"][col] = g.pick(["Last time you entered '${last-saved#%s}' here", "It's ${last-saved#%s}, isn't it?", 'Was "${last-saved#%s}" right?']) % g.pick(named)
     c = {"form": form}
     if g.p("_", 0.12):
         br = break_ref(g, form)
